@@ -263,6 +263,58 @@ def pack_sites(b, operand, depth=10):
             continue
         seen.add(l)
         for site, kind, node in b.defs.get(l, []):
+            if kind == "call":
+                # `cond.then(|| (idx, off))` / `opt.map(|x| (a, b))`: the tuple is built by a closure of this function; it is
+                # presented as if built at the call, over the variables the closure captures
+                facts_ = getattr(b, "facts", None)
+                for a_ in node.get("args", []):
+                    al_ = op_local(b.resolve_copy(a_))
+                    d_ = b.def_rvalue(al_) if al_ is not None else None
+                    if not (d_ and d_[0] == "rv" and d_[1]["k"] == "agg" and d_[1].get("akind") == "closure" and facts_ is not None):
+                        # `cond.then_some((idx, off))`, `Some(..)`-like wrappers: the value passes through the call
+                        if al_ is not None and re.search(r"bool::then_some$|Option::(Some|from|filter|or|xor)$|::into$|::from$", strip_generics(node.get("callee") or "")):
+                            work.append((al_, projected))
+                        continue
+                    cb = facts_.bodies.get(d_[1].get("name"))
+                    if cb is None:
+                        continue
+                    for cs_, cst in cb.assigns():
+                        crv = cst["rv"]
+                        if crv["k"] == "agg" and crv.get("akind") == "tuple" and len(crv["ops"]) >= 2 and cst["place"]["l"] == 0 or (
+                                crv["k"] == "agg" and crv.get("akind") == "tuple" and len(crv["ops"]) >= 2 and any(
+                                    s2["rv"]["k"] == "use" and op_local(s2["rv"]["op"]) == cst["place"]["l"] and s2["place"]["l"] == 0 for _, s2 in cb.assigns())):
+                            ops2 = []
+                            okm = True
+                            for o_ in crv["ops"]:
+                                q_ = op_place(cb.resolve_copy(o_)) if o_.get("k") != "const" else None
+                                if o_.get("k") == "const":
+                                    ops2.append(o_)
+                                    continue
+                                nm_ = None
+                                for vd in cb.j.get("var_debug", []):
+                                    if q_ is not None and vd["value"].get("l") == q_["l"] and [x for x in vd["value"]["p"] if x != "*"] == [x for x in q_["p"] if x != "*"]:
+                                        nm_ = vd["name"]
+                                if nm_ is None:
+                                    # a value computed inside the closure from captures (`info.cur_block_idx as u64`): take its expression's captured root
+                                    from .core.symexpr import expr as _e2, show as _s2, strip_refs as _sr2
+                                    m_ = re.search(r"_1\.(\w+)", _s2(_sr2(_e2(cb, o_)), 8))
+                                    nm_ = m_.group(1) if m_ else None
+                                pl_ = b.locals_named(nm_) if nm_ else []
+                                if pl_:
+                                    ops2.append({"k": "copy", "place": {"l": pl_[0], "p": []}})
+                                elif o_ is not crv["ops"][-1]:
+                                    ops2.append({"k": "const", "val": None, "dbg": "?"})   # only the offset (last component) is judged
+                                else:
+                                    okm = False
+                            if okm:
+                                class _PS:
+                                    pass
+                                ps_ = _PS()
+                                ps_.bb, ps_.idx, ps_.body = site.bb, site.idx, b
+                                ps_.line = site.line
+                                ps_.node = {"rv": {"k": "agg", "akind": "tuple", "ops": ops2}, "line": site.line}
+                                out.append(ps_)
+                continue
             if kind != "assign":
                 continue
             rv = node["rv"]
